@@ -4,8 +4,10 @@ import bftcommon
 
 def run(ctx):
     q = ctx.quick
-    ctx.tlc_must_hold("bft", "MCBFT", cfg="MCBFT_quick.cfg" if q else "MCBFT_thorough.cfg",
-                      timeout=900 if q else 7200, heap="8g", label="OrderIndependence in the design model")
+    ctx.tlc_must_hold("bft", "MCBFT", cfg="MCBFT_quick.cfg", timeout=1800, heap="8g", label="OrderIndependence in the design model (3 blocks, 1 Byzantine, 1 restart)")
+    if not q:
+        ctx.tlc_must_hold("bft", "MCBFT", cfg="MCBFT_thorough.cfg", timeout=7200, heap="12g", workers=16,
+                          label="OrderIndependence in the design model (4 blocks, 2 Byzantine)")
     bftcommon.binding_demo(ctx)
     stats = []
     stats += bftcommon.record_and_validate(ctx, "permute,latesibling,async-restart", 24 if q else 600, 36, "c04-orders")
